@@ -114,3 +114,49 @@ text("c18-no-family-switch", "C18", RAW, "        if \"credentials\" in kwargs a
 text("c18-v2c-mpm-id", "C18", "puresnmp/credentials.py", "        super().__init__(community)\n        self.mpm = 1", "        super().__init__(community)\n        self.mpm = 2")
 text("c18-decode-stale-creds", "C18", RAW, "        response = self.mpm.decode(raw_response, self.credentials)", "        response = self.mpm.decode(raw_response, pdu_credentials)")
 text("c18-s-rename-saved", "C18", RAW, "        old_config = self.config\n        old_mpm = self.mpm\n        try:\n            self.configure(**kwargs)\n            yield\n        finally:\n            self.config = old_config\n            self.mpm = old_mpm\n", "        previous_mpm = self.mpm\n        previous = self.config\n        try:\n            self.configure(**kwargs)\n            yield\n        finally:\n            self.mpm = previous_mpm\n            self.config = previous\n", expect="silent")
+
+# ---------------------------------------------------------------- C15
+PY = "puresnmp/api/pythonic.py"
+patch("rev-D3-bulkget-keys", "C15", "eab59f1-fix__PyWrapper.bulkget_returns_str_OIDs_as_dictionary_keys.diff")
+text("c15-get-raw", "C15", PY, "        return raw_value.pythonize()\n", "        return raw_value\n")
+text("c15-multiget-raw", "C15", PY, "        pythonized = [value.pythonize() for value in raw_output]\n", "        pythonized = [value for value in raw_output]\n")
+text("c15-multiset-oid-keys", "C15", PY, "            str(oid): value.pythonize() for oid, value in raw_output.items()", "            oid: value.pythonize() for oid, value in raw_output.items()")
+text("c15-walk-raw-yield", "C15", PY, "        async for varbind in raw_result:\n            yield PyVarBind.from_raw(varbind)", "        async for varbind in raw_result:\n            yield varbind")
+text("c15-table-raw-cells", "C15", PY, "        output = []\n        for row in tmp:\n            index = row.pop(\"0\")\n            pythonized = {key: value.pythonize() for key, value in row.items()}", "        output = []\n        for row in tmp:\n            index = row.pop(\"0\")\n            pythonized = {key: value for key, value in row.items()}")
+text("c15-bulktable-returns-raw", "C15", PY, "            output.append(pythonized)  # type: ignore\n        return output", "            output.append(pythonized)  # type: ignore\n        return tmp")
+text("c15-from-raw-value-raw", "C15", "puresnmp/varbind.py", "            raw_varbind.oid.pythonize(), raw_varbind.value.pythonize()", "            raw_varbind.oid.pythonize(), raw_varbind.value")
+text("c15-multiget-filter", "C15", PY, "        pythonized = [value.pythonize() for value in raw_output]\n", "        pythonized = [value.pythonize() for value in raw_output if value.pythonize() is not None]\n")
+text("c15-bulkwalk-skip", "C15", PY, "        async for varbind in result:\n            yield PyVarBind.from_raw(varbind)", "        async for varbind in result:\n            if varbind.value.pythonize() is None:\n                continue\n            yield PyVarBind.from_raw(varbind)")
+text("c15-timeticks-float", "C15", "puresnmp/types.py", "    def pythonize(self) -> Optional[timedelta]:  # type: ignore", "    def pythonize(self) -> \"TimeTicks\":  # type: ignore")
+text("c15-s-loop-instead-of-comp", "C15", PY, "        pythonized = [value.pythonize() for value in raw_output]\n        return pythonized", "        pythonized = []\n        for value in raw_output:\n            pythonized.append(value.pythonize())\n        return pythonized", expect="silent")
+
+# ---------------------------------------------------------------- C17
+TYPES = "puresnmp/types.py"
+patch("rev-D4-timeticks-trunc", "C17", "1e76b1d-fix__TimeTicks_from_timedelta_no_longer_loses_a_tick.diff")
+text("c17-counter-mask", "C17", TYPES, "            value &= 0xFFFFFFFF if value >= 2**32 else value\n", "            value &= 0x7FFFFFFF if value >= 2**32 else value\n")
+text("c17-counter-threshold", "C17", TYPES, "            value &= 0xFFFFFFFF if value >= 2**32 else value\n", "            value &= 0xFFFFFFFF if value > 2**32 else value\n")
+text("c17-counter64-threshold", "C17", TYPES, "value &= 0xFFFFFFFFFFFFFFFF if value >= 2**64 else value", "value &= 0xFFFFFFFFFFFFFFFF if value >= 2**63 else value", expect="silent", note="equivalent: masking values below 2**64 with 64 one bits is the identity")
+text("c17-counter64-mask32", "C17", TYPES, "value &= 0xFFFFFFFFFFFFFFFF if value >= 2**64 else value", "value &= 0xFFFFFFFF if value >= 2**64 else value")
+text("c17-no-clamp", "C17", TYPES, "            value &= 0xFFFFFFFF if value >= 2**32 else value\n            if value <= 0:\n                value = 0\n", "            value &= 0xFFFFFFFF if value >= 2**32 else value\n")
+text("c17-clamp-abs", "C17", TYPES, "            value &= 0xFFFFFFFF if value >= 2**32 else value\n            if value <= 0:\n                value = 0\n", "            value &= 0xFFFFFFFF\n", note="negative values wrap instead of clamping")
+text("c17-gauge-signed", "C17", TYPES, "class Gauge(Integer):\n    \"\"\"\n    SNMP type for gauges.\n    \"\"\"\n\n    SIGNED = False\n", "class Gauge(Integer):\n    \"\"\"\n    SNMP type for gauges.\n    \"\"\"\n\n")
+text("c17-ticks-scale-1000", "C17", TYPES, "            value = value // timedelta(milliseconds=10)\n", "            value = value // timedelta(milliseconds=1)\n")
+text("c17-pythonize-scale", "C17", TYPES, "        seconds = self.value / 100.0  # see rfc2578#section-7.1.8", "        seconds = self.value / 10.0  # see rfc2578#section-7.1.8")
+text("c17-pythonize-floordiv", "C17", TYPES, "        seconds = self.value / 100.0  # see rfc2578#section-7.1.8", "        seconds = self.value // 100  # see rfc2578#section-7.1.8")
+text("c17-ip-little", "C17", TYPES, "        return numeric.to_bytes(4, \"big\")", "        return numeric.to_bytes(4, \"little\")")
+text("c17-s-round", "C17", TYPES, "            value = value // timedelta(milliseconds=10)\n", "            value = round(value.total_seconds() * 100)\n", expect="silent")
+text("c17-s-modulo", "C17", TYPES, "            value &= 0xFFFFFFFF if value >= 2**32 else value\n            if value <= 0:\n                value = 0\n", "            if value < 0:\n                value = 0\n            value = value % 2**32\n", expect="silent")
+
+# ---------------------------------------------------------------- C16
+text("c16-table-plus-one", "C16", RAW, "            tmp, num_base_nodes=len(oid), _rowtype=_rowtype\n", "            tmp, num_base_nodes=len(oid) + 1, _rowtype=_rowtype\n")
+text("c16-bulktable-no-plus", "C16", RAW, "tablify(tmp, num_base_nodes=len(oid) + 1, _rowtype=_rowtype)", "tablify(tmp, num_base_nodes=len(oid), _rowtype=_rowtype)")
+text("c16-row-drops-first-arc", "C16", UTIL, "            col_id_nodes, row_id_nodes = tail[0], tail[1:]", "            col_id_nodes, row_id_nodes = tail[0], tail[2:]")
+text("c16-row-last-arc-only", "C16", UTIL, "            row_id = \".\".join([str(node) for node in row_id_nodes])", "            row_id = str(row_id_nodes[-1])")
+text("c16-col-wrong-arc", "C16", UTIL, "            tail = oid.nodes[num_base_nodes:]", "            tail = oid.nodes[num_base_nodes - 1 :]")
+text("c16-fresh-row-per-cell", "C16", UTIL, "        row = rows.setdefault(row_id, tmp)\n", "        rows[row_id] = tmp\n        row = tmp\n")
+text("c16-index-key", "C16", UTIL, "            \"0\": row_id,\n", "            \"index\": row_id,\n")
+text("c16-bulktable-fixed-bulk", "C16", RAW, "        varbinds = self.bulkwalk([oid], bulk_size=bulk_size)", "        varbinds = self.bulkwalk([oid], bulk_size=10)")
+text("c16-table-skip-first", "C16", RAW, "        async for varbind in varbinds:\n            tmp.append(varbind)\n        as_table: List[TTableRow] = tablify(", "        async for varbind in varbinds:\n            if varbind.oid == oid:\n                continue\n            tmp.append(varbind)\n        as_table: List[TTableRow] = tablify(")
+text("c16-wrapper-index-lost", "C16", PY, "            pythonized[\"0\"] = index\n            output.append(pythonized)\n        return output", "            output.append(pythonized)\n        return output")
+text("c16-s-generator-join", "C16", UTIL, "            row_id = \".\".join([str(node) for node in row_id_nodes])", "            row_id = \".\".join(str(node) for node in row_id_nodes)", expect="silent")
+text("c16-s-direct-slices", "C16", UTIL, "            tail = oid.nodes[num_base_nodes:]\n            col_id_nodes, row_id_nodes = tail[0], tail[1:]", "            col_id_nodes = oid.nodes[num_base_nodes]\n            row_id_nodes = oid.nodes[num_base_nodes + 1 :]", expect="silent")
